@@ -29,5 +29,5 @@ if [ "$SKIP" != "--skip-suite" ]; then
 fi
 rm -f zz_seed_demo_test.go
 echo "SEED $(basename "$SEED"): demo-without-change=$DEMO_BASE demo-with-change=$DEMO_MUT suite-with-change=$SUITE"
-/verif/bin/verifcheck -prop all -repo "$W" -verif /verif -no-evidence 2>&1 | grep -E "^(violation|UNDECIDED|CHECKER)" | sed "s#$W/##g" | cut -c1-330
+/verif/bin/verifcheck -prop all -repo "$W" -verif /verif -no-evidence 2>&1 | grep -E "^(violation|UNDECIDED|CHECKER)|obligations, [1-9][0-9]* violated" | sed "s#$W/##g" | cut -c1-330
 echo "SEED $(basename "$SEED"): checks done"
